@@ -94,7 +94,9 @@ struct bresenham_line_rasterizer
             // transpose coordinate system back to proper form if needed
             *d_first++ = needs_flip ? point_t{y, x} : point_t{x, y};
             error_term += slope;
-            if (error_term >= 0.5)
+            // the slope is taken over pixel counts, (|dy| + 1) / (|dx| + 1); for |dx| >= 4|dy| + 3 it
+            // accumulates |dy| + 1 steps, so never step past the end point's row (bounding box)
+            if (error_term >= 0.5 && y != end.y)
             {
                 --error_term;
                 y += y_increment;
